@@ -437,7 +437,7 @@ pub fn main(args: &Args) -> ! {
     let dl = deadline(if thorough { 1500 } else { 50 });
     let k = 2;
     let alts: &[Fate] = if thorough { &FATE_ALTS } else { &FATE_ALTS3 };
-    rep.rule = format!("E2 on one real server endpoint with three (later four) concurrent client connections from two or three client endpoints, each sending a transfer of a different length: every execution with <=k={k} deviations over the fate alphabet {alts:?} in the scenario's window, for CID lengths 0/1/4/8/20, CID rotation every 200 ms, clients calling local_address_changed at several points, connections closed at each listed step with a fourth connection opened afterwards (slab slot and handle reuse). Oracle on EVERY Endpoint::handle call (harness log): the connection handle the datagram is routed to is the one paired with the connection that produced it (pairing learnt from the NewConnection returned for its first Initial), never another one, also after draining and handle reuse; at the end of every execution the server's stateless reset for the connection ID each surviving client connection uses must end exactly that connection; every connection that nobody closed completes, the server side obtains exactly that connection's byte count, and no application sees foreign or corrupted data. A second part checks CID exhaustion with one-byte CIDs. Non-trivial = trace differs from the scenario's baseline; distinct = distinct trace hashes.");
+    rep.rule = format!("E2 on one real server endpoint with three (later four) concurrent client connections from two or three client endpoints, each sending a transfer of a different length: every execution with <=k={k} deviations over the fate alphabet {alts:?} in the scenario's window, for CID lengths 0/1/4/8/20, CID rotation every 200 ms, clients calling local_address_changed at several points, connections closed at each listed step with a fourth connection opened afterwards (slab slot and handle reuse). Oracle on EVERY Endpoint::handle call (harness log): the connection handle the datagram is routed to is the one paired with the connection that produced it (pairing learnt from the NewConnection returned for its first Initial), never another one, also after draining and handle reuse; at the end of every execution the server's stateless reset for the connection ID each surviving client connection uses must end exactly that connection; every connection that nobody closed completes, the server side obtains exactly that connection's byte count, and no application sees foreign or corrupted data. A second part checks CID exhaustion with one-byte CIDs. E1: the ring of peer-issued connection IDs (`CidQueue`, from which the destination CID of every outgoing datagram is taken) through every NEW_CONNECTION_ID (sequence, retire_prior_to) / switch history until the canonical state space closes, against a map model: the active CID is never a retired one, no stale CID stays in the ring. Non-trivial = trace differs from the scenario's baseline; distinct = distinct trace hashes.");
     let scs = scenarios(thorough);
     let mut total = 0u64;
     let mut routed = 0u64;
@@ -614,6 +614,12 @@ pub fn main(args: &Args) -> ! {
             }
         }
     }
+    // the ring of peer-issued connection IDs every outgoing datagram is addressed from (CidQueue),
+    // searched to closure against a map model (E1, merged from /verif/comp)
+    {
+        let dl2 = crate::explore::deadline(if thorough { 120 } else { 10 });
+        crate::checks::merge_comp(&mut rep, "C09", thorough, dl2);
+    }
     rep.sample(json!({"scenario":"close0@28+fourth","deviations":[[30,1]],"meaning":"three client connections run against one server; the first is closed after step 28, datagram #30 is duplicated 15 ms later, a fourth connection is opened 30 steps later and reuses the freed handle; every datagram must be routed to the connection paired with its producer"}));
     rep.assumptions = vec![
         "counter-based CID generator (deterministic, never repeats within a run); the built-in hashed/random generators draw from the OS RNG and are not enumerated".into(),
@@ -626,6 +632,10 @@ pub fn main(args: &Args) -> ! {
 fn replay(args: &Args) -> ! {
     let path = args.replay.as_ref().unwrap();
     let v: Value = serde_json::from_str(&std::fs::read_to_string(path).unwrap_or_else(|e| machinery(&format!("{e}")))).unwrap_or_else(|e| machinery(&format!("{e}")));
+    if let Some(out) = crate::checks::replay_comp(&v) {
+        println!("{out}");
+        std::process::exit(0)
+    }
     let r = &v["replay"];
     let name = r["scenario"].as_str().unwrap_or("");
     let s = scenarios(true).into_iter().find(|s| s.name == name).unwrap_or_else(|| machinery("unknown scenario"));
